@@ -5,6 +5,7 @@ From Coq Require Import List NArith Sorted.
 From Goit Require Import Bytes Tree Index IndexFacts.
 From Goit Require Import Obj World Repo Inv SnapshotFacts.
 From Goit Require Import Bridge.
+From Goit Require Import BranchFacts ExactFacts AddressFacts.
 Import ListNotations.
 
 (* T0 (tie to the source): every regexp literal of the current Go source denotes
@@ -82,6 +83,54 @@ Theorem C06_staging_area_canonical_on_every_history : forall w,
   NoDup (paths (idx_of w)) /\ Forall TreeFacts.valid_entry (idx_of w).
 Proof. exact staging_area_sorted. Qed.
 
+(* ---------- Part 3: addressability on every reachable repository ---------- *)
+(* every tracked path is found by Goit's binary search *)
+Theorem C06_every_tracked_path_is_found : forall w p,
+  Reachable w -> w_coll w = false -> SmallStore (w_objs w) ->
+  (tracked w p = true <-> exists i e, get_entry (idx_of w) p = Some (i, e) /\ e_path e = p).
+Proof. exact tracked_path_found_entry. Qed.
+
+(* a name is treated as a tracked directory iff some tracked path lies beneath <name>/ *)
+Theorem C06_tracked_directory_iff : forall w d,
+  Reachable w -> w_coll w = false -> SmallStore (w_objs w) ->
+  (is_dir (idx_of w) d = true <-> exists p, tracked w p = true /\ under_dir d p = true).
+Proof. exact tracked_dir_iff. Qed.
+
+(* "beneath d" means d ++ "/" ++ a non-empty rest: never a path that merely contains the name *)
+Theorem C06_beneath_means_slash : forall d p, d <> [x2e] ->
+  (under_dir d p = true <-> exists rest, rest <> [] /\ p = d ++ [c_slash] ++ rest).
+Proof. exact under_dir_shape. Qed.
+
+(* a directory operation selects exactly the tracked paths beneath it, each once, in index order *)
+Theorem C06_directory_selection_on_every_history : forall w d,
+  Reachable w -> w_coll w = false -> SmallStore (w_objs w) ->
+  (forall e, In e (entries_by_dir (idx_of w) d) <-> In e (idx_of w) /\ under_dir d (e_path e) = true) /\
+  (forall q, In q (map e_path (entries_by_dir (idx_of w) d)) <-> tracked w q = true /\ under_dir d q = true) /\
+  Canonical (entries_by_dir (idx_of w) d) /\
+  NoDup (entries_by_dir (idx_of w) d) /\ NoDup (map e_path (entries_by_dir (idx_of w) d)).
+Proof. exact dir_selects_exactly. Qed.
+
+(* d-old, ad/x and d itself are never selected by the name d *)
+Theorem C06_lookalikes_never_selected : forall w d e, d <> [x2e] ->
+  In e (entries_by_dir (idx_of w) d) ->
+  (forall c rest, c <> c_slash -> e_path e <> d ++ c :: rest) /\
+  (forall pre rest, pre <> [] -> ~ In c_slash pre -> ~ In c_slash d -> e_path e <> pre ++ d ++ c_slash :: rest) /\
+  e_path e <> d.
+Proof. exact dir_never_selects_lookalikes. Qed.
+
+(* a name that is neither tracked nor above a tracked path is refused by rm and
+   restore (and by restore --staged unless HEAD's snapshot has it, by add unless
+   it exists on disk) with the world unchanged *)
+Theorem C06_unmatched_name_refused : forall w a e,
+  Reachable w -> w_coll w = false -> SmallStore (w_objs w) ->
+  ~ listed w a -> (forall p, listed w p -> under_dir a p = false) ->
+  step (ACmd e (CRm [a])) w = (w, OErr, []) /\
+  step (ACmd e (CRestore false [a])) w = (w, OErr, []) /\
+  ((forall x ns, ctx_of w = Some x -> head_nodes x w = Some ns -> head_file ns a = false /\ head_dir ns a = false) ->
+   step (ACmd e (CRestore true [a])) w = (w, OErr, [])) /\
+  (exists_on_disk w a = false -> step (ACmd e (CAdd [a])) w = (w, OErr, [])).
+Proof. exact unmatched_name_step_refused. Qed.
+
 Print Assumptions C06_index_roundtrip.
 Print Assumptions C06_decode_count.
 Print Assumptions C06_update_canonical.
@@ -92,3 +141,9 @@ Print Assumptions C06_under_dir_spec.
 Print Assumptions C06_entries_by_dir_exact.
 Print Assumptions C06_staging_area_canonical_on_every_history.
 Print Assumptions C06_source_patterns_are_the_models.
+Print Assumptions C06_every_tracked_path_is_found.
+Print Assumptions C06_tracked_directory_iff.
+Print Assumptions C06_beneath_means_slash.
+Print Assumptions C06_directory_selection_on_every_history.
+Print Assumptions C06_lookalikes_never_selected.
+Print Assumptions C06_unmatched_name_refused.
